@@ -109,8 +109,14 @@ def run_trace_child(libs, reqs):
     return res
 
 
-def run_api_child(asan_src, reqs, extra_path=None):
-    """-> {id: {'outcome': 'ok'|'ok:<v>'|'raise:X'|'crash', 'reports': [...]}}"""
+KTABLE = os.path.join(common.LEAN, "Pyunicorn", "Generated", "StructC20.json")
+DTYPE_OF = {"ADJ_t": "int8", "MASK_t": "int8", "LAG_t": "int8", "DEGREE_t": "int16", "NODE_t": "int32",
+            "FIELD_t": "float32", "WEIGHT_t": "float32", "DFIELD_t": "float64", "DWEIGHT_t": "float64"}
+
+
+def run_api_child(asan_src, reqs, extra_path=None, kcalls=None):
+    """-> {id: {'outcome': 'ok'|'ok:<v>'|'raise:X'|'crash', 'reports': [...]}}; kernel calls
+    observed by the probe (kernel, shapes/ints, outcome) are appended to `kcalls`"""
     res = {}
     todo = list(reqs)
     env = dict(os.environ)
@@ -119,6 +125,8 @@ def run_api_child(asan_src, reqs, extra_path=None):
                             "allocator_may_return_null=1",
                UBSAN_OPTIONS="print_stacktrace=0:halt_on_error=0",
                PYTHONPATH=asan_src, OMP_NUM_THREADS="1", OPENBLAS_NUM_THREADS="1")
+    if kcalls is not None and os.path.exists(KTABLE):
+        env["C20_KERNEL_TABLE"] = KTABLE
     env.pop(common.GUARD, None)
     while todo:
         with tempfile.NamedTemporaryFile("w", suffix=".jsonl", prefix="C20-", delete=False) as fh:
@@ -139,6 +147,9 @@ def run_api_child(asan_src, reqs, extra_path=None):
             elif line.startswith("@@BEGIN "):
                 cur = line.split()[1]
                 res[cur] = {"outcome": "crash", "reports": []}
+            elif line.startswith("@@KCALL "):
+                if kcalls is not None:
+                    kcalls.append(tuple(json.loads(line[8:])))
             elif line.startswith("@@END "):
                 parts = line.split(" ", 2)
                 res[parts[1]]["outcome"] = parts[2].strip()
@@ -552,11 +563,16 @@ def run(ctx):
     # oracle stream (no model): other dtypes, random floats, RQA / visibility entry points
     oreqs = oracle_stream(ctx, rng, nprng, quick)
 
-    allreqs = areqs + kreqs + oreqs
+    # T4: typed-buffer kernels at their own boundary (shapes at, above and below what the loops need)
+    preqs, pmodel = pyx_kernel_requests(ctx, rng, quick)
+
+    allreqs = areqs + kreqs + oreqs + preqs
     nchunk = 4
     chunks = [allreqs[i::nchunk] for i in range(nchunk)]
+    kcalls = []
     with ThreadPoolExecutor(nchunk) as ex:
-        parts = list(ex.map(lambda ch: run_api_child(asan_src, ch) if ch else {}, chunks))
+        parts = list(ex.map(lambda ch: run_api_child(asan_src, ch, kcalls=kcalls) if ch else {},
+                            chunks))
     ares = {}
     for p in parts:
         ares.update(p)
@@ -602,8 +618,116 @@ def run(ctx):
 
     ctx.correspond("_set_adaptive_neighborhood_size outcome == Lean while-kernel model",
                    kmodel, kimpl)
+
+    # T4: the outcome predicted from the generated site lists (Lean driver) against the compiled kernel
+    pred = common.driver("C20", pmodel) if pmodel else []
+    pimpl = []
+    for q, m in zip(preqs, pred):
+        r = ares[q["id"]]
+        o = r["outcome"]
+        if r["reports"] or o == "crash":
+            pimpl.append("oob")
+        elif m == "raise":
+            pimpl.append("raise" if o.startswith("raise:") else "ok")
+        elif m == "ok":         # (ZeroDivisionError etc. are not index matters)
+            pimpl.append("raise" if o == "raise:IndexError" else "ok")
+        else:
+            pimpl.append(m)
+        ctx.count(f"kernel-boundary:{m}:{o.split(':')[-1] if o.startswith('raise') else 'returned'}")
+    ctx.correspond("typed-buffer kernels: IndexError / normal return == prediction from the generated "
+                   "site lists", pmodel, pimpl)
+
+    # kernel calls observed under the public API: do they satisfy the contracts the theorems assume?
+    table = json.load(open(KTABLE)) if os.path.exists(KTABLE) else {}
+    uncovered = []
+    for (key, recs, out) in sorted(set(kcalls)):
+        rec = json.loads(recs)
+        rels = table.get(key, {}).get("contract", [])
+        ok = True
+        for rel in rels:
+            try:
+                ok &= bool(eval(rel, {"__builtins__": {}}, dict(rec)))
+            except NameError:
+                pass
+        ctx.case(("kcall", key, recs), True)
+        ctx.count(f"kernel-call:{key}:{'contract-holds' if ok else 'outside-contract'}:{out}")
+        if not ok and out == "ok":
+            uncovered.append(f"{key} {recs}")
+    ctx.extra["kernel_calls_observed"] = len(set(kcalls))
+    ctx.extra["kernel_calls_outside_contract_returning"] = uncovered[:20]
+    ctx.extra["typed_buffer_census"] = {k: [v["n_closed"], v["n_checked"], v["n_pyobj"]]
+                                        for k, v in table.items() if v["n_closed"] + v["n_checked"]}
     for v in kimpl:
         ctx.count("adaptive-outcome:" + ("raise" if "raise" in v else "matrix"))
+
+
+KERNEL_FIX = {      # scalar choices that keep non-index errors (allocation, division) out of the way
+    "core:_mpi_newman_betweenness": lambda a: a.update(end_i=a["start_i"] + a["end_i"]),
+    "core:_mpi_nsi_newman_betweenness": lambda a: a.update(end_i=a["start_i"] + a["end_i"]),
+}
+
+
+def pyx_kernel_requests(ctx, rng, quick):
+    """kernels all of whose subscripts are closed-form and that have no `while` loop"""
+    if not os.path.exists(KTABLE):
+        return [], []
+    table = json.load(open(KTABLE))
+    reqs, model = [], []
+    pure = [k for k, v in sorted(table.items())
+            if v["keyword"] == "def" and v["n_closed"] and not v["n_checked"] and not v["n_pyobj"]
+            and not v["has_while"] and all(p[1] in ("buf", "int", "float") for p in v["params"])]
+    ctx.extra["kernel_boundary_kernels"] = pure
+    for key in pure:
+        info = table[key]
+        for _ in range(6 if quick else 40):
+            sc = {p[0]: rng.choice([0, 1, 2, 3, 4]) for p in info["params"] if p[1] == "int"}
+            if key in KERNEL_FIX:
+                KERNEL_FIX[key](sc)
+            mode = rng.choice(["fit", "fit", "big", "random", "one-short"])
+            kv = dict(sc)
+            kargs = []
+            short = rng.randrange(0, 8)
+            nax = 0
+            for (pn, kind, ty, nd) in info["params"]:
+                if kind == "int":
+                    kargs.append(sc[pn])
+                elif kind == "float":
+                    kargs.append(rng.choice([0.0, 0.5, 1.0]))
+                else:
+                    shape = []
+                    for ax in range(nd):
+                        if mode == "random":
+                            d = rng.randrange(0, 7)
+                        else:
+                            d = needed_extent(info, f"{pn}_{ax}", sc) if mode != "big" else 9
+                            if mode == "one-short" and nax == short % max(1, sum(
+                                    p[3] for p in info["params"] if p[1] == "buf")):
+                                d = max(0, d - 1)
+                        nax += 1
+                        shape.append(d)
+                        kv[f"{pn}_{ax}"] = d
+                    kargs.append({"dtype": DTYPE_OF[ty], "shape": shape})
+            rid = f"p{len(reqs)}"
+            reqs.append({"id": rid, "fn": "pyx_kernel", "key": key, "kargs": kargs,
+                         "seed": rng.randrange(10 ** 6), "cls": mode, "timeout": 60})
+            model.append(f"psites {key} 10 " + ",".join(f"{k}={v}" for k, v in sorted(kv.items())))
+            ctx.case(("pyx_kernel", key, json.dumps(kv, sort_keys=True)), True,
+                     {"kernel": key, "mode": mode, "values": kv} if len(reqs) % 17 == 0 else None)
+            ctx.count(f"kernel-boundary-shapes:{mode}")
+    return reqs, model
+
+
+def needed_extent(info, sym, sc):
+    """smallest extent the contract asks for (max over the `sym >= e` relations)"""
+    need = 0
+    for rel in info["contract"]:
+        m = rel.split(">=")
+        if len(m) == 2 and m[0].strip() == sym:
+            try:
+                need = max(need, int(eval(m[1], {"__builtins__": {}}, dict(sc))))
+            except NameError:
+                need = max(need, 5)
+    return need
 
 
 def replay(ctx, rp):
